@@ -369,6 +369,9 @@ def run(tier):
                     'forked workers and threads inherit / share the table, so two checking processes can be handed the same candidate file name or a stale rendering: a candidate is accepted on the strength of another candidate')
 
     chk.guard(_memo_rule, chk, prog)
+    from .. import idkeys
+    chk.guard(idkeys.report, chk, prog, 'C01.R13', 'no object address (builtin id()) outlives the function that took it: none keys a module-level or object-level container, is stored on an object or put into a record',
+              'a cache of rendered text / unpickled inputs / verdicts keyed by an address hands the command the text of a candidate that has been freed: the file that is checked is not the candidate that is adopted')
     extra = None
     if tier == 'thorough':
         from .. import selftest
